@@ -280,6 +280,10 @@ def run_batch(prop, tier, seed, workers, units_override=None, wall_cap=None, qui
         for start in range(0, n, block):
             idx = list(range(start, min(n, start + block)))
             tasks.append((prop, stream, seed, idx, deadline, 12, start == 0))
+    # the blocks of all streams interleaved (by their relative position in their stream): a wall cap then thins every stream
+    # out alike instead of cutting the last streams of the plan entirely
+    sizes = dict(plan)
+    tasks.sort(key=lambda t: (t[3][0] / float(max(1, sizes.get(t[1], 1))), t[1]))
     total = {}
     per_stream = {}
     if workers <= 1:
